@@ -14,13 +14,13 @@ import (
 // holds the write lock / opens a reader exactly between litestream's steps X and Y" is chosen by the generator,
 // replayed exactly and shrunk like any other part of the case.
 
-// Phases lists the hook points litestream reports (the sync diagnostics phases plus four explicit points).
+// Phases lists the hook points litestream reports (the sync diagnostics phases plus five explicit points).
 var Phases = []string{
 	"ensure_wal", "verify_and_sync", "stat_wal", "verify", "sync_open_ltx", "sync_page_map", "sync_prepare_ltx",
 	"write_ltx_from_db", "write_ltx_from_wal", "close_ltx", "fsync_ltx", "rename_ltx", "sync_complete",
 	"checkpoint_if_needed", "checkpoint_lock", "checkpoint_read_wal_header", "checkpoint_copy_before", "checkpoint_passive_barrier", "checkpoint_exec",
 	"checkpoint_bump_seq", "checkpoint_verify_restart", "checkpoint_snapshot_boundary_lock", "checkpoint_snapshot_boundary",
-	"snapshot_encode", "close_release",
+	"snapshot_position", "snapshot_encode", "close_release",
 }
 
 type pendingAt struct {
@@ -52,6 +52,20 @@ func (w *World) runPending(p *pendingAt, late bool) {
 		if o.K == "bg" {
 			if !late {
 				w.spawnBG(o)
+			}
+			continue
+		}
+		if o.K == "ls" {
+			// a litestream call made synchronously from inside the hook (only at points where the hooked operation holds
+			// neither the executor nor an exclusive lock the call needs: between a snapshot's position and its reader)
+			if !late && w.DB != nil {
+				switch o.M {
+				case "sync":
+					_ = w.DB.Sync(w.ctx)
+				case "checkpoint":
+					_ = w.DB.Checkpoint(w.ctx, o.S2())
+				}
+				w.Obs.LSInHook++
 			}
 			continue
 		}
